@@ -14,6 +14,14 @@ import json
 # ---------------------------------------------------------------------------------------------------------------------
 
 
+
+def _let_timeouts_through(e):
+    """`except BaseException` around code of the implementation must not swallow the worker's per-case watchdog
+    (worker.CaseTimeout): a hang is reported as a hang (and the worker restarted), not as an outcome `raised-CaseTimeout`"""
+    if type(e).__name__ == "CaseTimeout":
+        raise e
+
+
 def _atom(x):
     s = str(x)
     out = "".join(ch if (ch.isalnum() or ch in "-_.:+") else "_" for ch in s)
@@ -667,6 +675,7 @@ def prog_errors(E):
         try:
             yield middle.asynq(what), E.item("e", "sibling")
         except BaseException as e:
+            _let_timeouts_through(e)
             return ("caught", type(e).__name__)
 
     for what in (Boom, a.AsyncTaskCancelledError, KeyboardInterrupt, "lazy", "errfut", "junk"):
@@ -976,6 +985,7 @@ def prog_threads(E):
         try:
             res["other"] = work("th2", 2)
         except BaseException as e:
+            _let_timeouts_through(e)
             res["other"] = "raised-" + type(e).__name__
 
     @a.asynq()
@@ -1087,7 +1097,8 @@ def run_once(name, opts):
                 raise
             E.log("program-raised", type(e).__name__)
         sched = asynq.scheduler.get_scheduler()
-        E.log("sched", len(sched._tasks), "none" if sched.active_task is None else "task")
+        E.log("sched", len(sched._tasks), "none" if sched.active_task is None else "task", len(sched._batches),
+              sum(1 for b in sched._batches if b.items and not b.is_flushed()))
     finally:
         for k, v in saved.items():
             setattr(dbg, k, v)
